@@ -19,7 +19,12 @@ PROP = dict(
           "\\ \" ' ? $ # % / * < or the mask toggles at least twice. (b) parser: 30 hand-written construct samples alone and in ordered pairs x "
           "endianness x mask state x toggles (expected bytes written by hand), rapidcheck grammar-generated texts whose expected bytes are known by "
           "construction (hex pairs with separators, // and /* */ comments, \"...\" and '...' strings with escapes, ? and $ toggles, # ## ### #### "
-          "decimal/negative/0x numerals in range, % and %% floats printed with %.9g/%.17g), mutated grammar texts and random texts (totality; "
+          "decimal/negative/0x numerals in range, % and %% floats printed with %.9g/%.17g or with up to 60 significant digits, and float literals "
+          "that need correct rounding: long decimal literals (up to ~770 digits) and C99 hexadecimal literals (up to 100 extra bits) just below, exactly on "
+          "and just above the midpoint of two adjacent singles (%) / doubles (%%), plain or in exponent notation, either sign - the bytes are those of the "
+          "value NEAREST to the literal (ties to even), i.e. the literal is rounded once to the width asked for; expected bits built with integer arithmetic: "
+          "enumerated for all 253 binades of the single format incl. subnormals and 190 double binades x edge/inner neighbour pairs x below/on/above x decimal/hex, "
+          "generated for arbitrary neighbour pairs), mutated grammar texts and random texts (totality; "
           "compared with the reference interpreter when they stay inside the documented syntax), and a coverage-guided libFuzzer campaign on arbitrary "
           "text with the same oracle; non-trivial = the text contains at least one non-hex construct. (b2) the parse-data tool (src/ParseData.cc, built from the tree under "
           "test): generated texts of 0..1 MB (lengths: tiny, up to 8 KiB, within 300 of every power of two from 2^12 to 2^20, log-uniform up to 1 MiB; "
@@ -33,18 +38,28 @@ PROP = dict(
           "of 0..12/20 bytes, every third/every combination of column, float-endianness, offset-width, colour, collapse and separator flags on 5 data "
           "shapes x 4 start addresses x with/without previous buffer, every size 0..48 at every alignment at 7 base addresses (incl. 2^64-80, 2^64-48, 2^64-16), plus rapidcheck dumps of 0..600 bytes with "
           "planted zero runs and float specials at start addresses 0, aligned, unaligned, around 2^8/2^16/2^32 and near the top of the address space (dumps ending up to and including 2^64); non-trivial = "
-          "unaligned start, more than one iovec, or a collapsible zero run. Distinct = distinct case encodings / fuzz inputs (hash)."),
+          "unaligned start, more than one iovec, or a collapsible zero run. (c2) dumps of more than 2^31 / 2^32 bytes (subcheck bigdump), requested through thousands of "
+          "iovecs aliasing one block of about 1 MiB: the first 1..5 lines through the callback overload (the callback throws once they are complete) for totals "
+          "on, just below and just above 2^31, 2^32, 2^32+2^31, 2^33, 3*2^32 (-1 MiB, -17..+17, +100, +1 MiB, +700 MiB; generated: up to ~18 GiB) x start addresses "
+          "aligned / unaligned / across 2^32 / ending at 2^64 x flag sets, decoded by the column decoder against the block pattern; and sparse dumps walked to the "
+          "end with COLLAPSE_ZERO_LINES (zero background, islands of non-zero bytes at the start, around 2^31 / 2^32 / 2^31+2^32 bytes from the start and before the "
+          "end, in the middle and at the very end; 1 dump of 2^31+3 MiB in quick, 7 dumps up to 2^33 bytes in thorough, through the iovec / callback / vector / "
+          "print_data entry points): exactly the first line, the last line and the island lines, each decoded and compared; non-trivial = total > 2^31. Distinct = distinct case encodings / fuzz inputs (hash)."),
     assumptions=["hex-dump callers pass a previous buffer of exactly the data size (the print_data contract)",
                  "start + size <= 2^64 (a dump cannot extend beyond the 64-bit address space)",
                  "at most one of the OFFSET_* flags and at most one float-endianness flag per dump",
                  "little-endian host (float columns without an endianness flag are decoded as little-endian)",
                  "parse_data_string is called without ALLOW_FILES; texts outside the documented syntax (dangling escapes, empty or out-of-range "
-                 "numerals, hexadecimal/inf/nan floats, NUL bytes, a construct between the two digits of a hex pair) are only required to be handled "
+                 "numerals, inf/nan floats, hexadecimal floats without digits or without a binary exponent, floats whose value is outside the finite "
+                 "non-zero range of the format, NUL bytes, a construct between the two digits of a hex pair) are only required to be handled "
                  "without crash and with mask.size() == data.size()",
-                 "NaN fields of the float columns are compared ignoring the sign"],
+                 "NaN fields of the float columns are compared ignoring the sign",
+                 "a float literal denotes the IEEE-754 value of the requested width nearest to its exact value, ties to even (decimal literals and "
+                 "C99/C++17 hexadecimal literals 0xH.HpN alike)",
+                 "bigdump: no colour, no previous buffer, no float/double columns; the output callback may throw between two lines"],
     min_evaluations_quick=100000,
-    min_per_check_quick=dict(roundtrip=200000, grammar=60000, parse_any=36000, dump=40000, c09_fuzz=20000, tool=200),
-    min_per_check_thorough=dict(roundtrip=2800000, grammar=700000, parse_any=1300000, dump=600000, c09_fuzz=500000),
+    min_per_check_quick=dict(roundtrip=200000, grammar=60000, parse_any=36000, dump=40000, bigdump=1500, c09_fuzz=20000, tool=200),
+    min_per_check_thorough=dict(roundtrip=2800000, grammar=700000, parse_any=1300000, dump=600000, bigdump=15000, c09_fuzz=500000),
     technique=("property-based testing + coverage-guided fuzzing: round-trip oracle for format_data_string/parse_data_string; an independently written "
                "reference interpreter of the documented data-string syntax plus by-construction expectations for grammar-generated text; an "
                "independent column decoder of the hex-dump layout (address/hex/ASCII/float/double columns, terminal attributes) whose reconstruction "
